@@ -84,6 +84,9 @@ def rechecks(state):
         return False
 
 
+SEARCH_LOG = {}       # sequent -> searches made for it in this process (see examine_choice)
+
+
 class Examiner:
     def __init__(self, ctx, rng, max_choices, recorder=None):
         self.ctx, self.rng, self.max_choices = ctx, rng, max_choices
@@ -136,6 +139,18 @@ class Examiner:
         hist = self._hist.setdefault(gp, [])
         self.earlier = [list(h) for h in hist]      # searches of this goal made before, for the replay
         hist.append([ids(f) for f in fs])
+        # searches of the *same sequent* made in other states of this process (a search may
+        # remember what it found for a sequent): kept so that a failure can be replayed
+        try:
+            th = state.get_proof_item(gp).th
+            log = SEARCH_LOG.setdefault(th, [])
+            here = (goal.ident(), json.dumps(trail, sort_keys=True, default=str), ids(gp))
+            self.earlier_states = [e["entry"] for e in log if e["where"] != here][-4:]
+            log.append({"where": here, "entry": {"goal": goal.to_json(), "trail": trail, "goal_id": ids(gp), "fact_ids": [ids(f) for f in fs]}})
+            if len(log) > 8:
+                del log[0]
+        except Exception:  # noqa
+            self.earlier_states = []
         try:
             with time_limit(base.STEP_LIMIT):
                 res = state.search_method(ids(gp), [ids(f) for f in fs])
@@ -161,7 +176,8 @@ class Examiner:
         name = sugg["method_name"]
         goal.set_context()
         rp = {"goal": goal.to_json(), "trail": trail, "goal_id": sugg["goal_id"], "fact_ids": sugg.get("fact_ids", []),
-              "suggestion": jsonable(sugg), "earlier_searches": getattr(self, "earlier", [])}
+              "suggestion": jsonable(sugg), "earlier_searches": getattr(self, "earlier", []),
+              "earlier_states": getattr(self, "earlier_states", [])}
         try:
             step = base.fill_params(state, clean(sugg), rng)
         except Exception as e:  # noqa
@@ -470,6 +486,15 @@ def rebuild(goal, trail):
 def replay(ctx, rp):
     r = rp["replay"]
     base.neutralise_z3(ctx)
+    # searches of the same sequent in other states that preceded the failing one
+    for e in r.get("earlier_states", []):
+        try:
+            g0 = base.load_goal(e["goal"])
+            st0 = rebuild(g0, e["trail"])
+            g0.set_context()
+            st0.search_method(e["goal_id"], e["fact_ids"])
+        except Exception:  # noqa
+            pass
     goal = base.load_goal(r["goal"])
     state = rebuild(goal, r["trail"])
     ex = Examiner(ctx, ctx.rng("replay"), 0)
